@@ -51,7 +51,7 @@ from .ast_nodes import (
 )
 from .opcodes import OpCode
 from .values import UNDEFINED
-from .errors import JSError
+from .errors import JSError, JSSyntaxError
 
 
 @dataclass
@@ -83,13 +83,23 @@ class LoopContext:
     continue_jumps: List[int] = field(default_factory=list)
     label: Optional[str] = None
     is_loop: bool = True  # False for switch statements (break only, no continue)
+    # Labels of a labelled loop (A: B: while ...): continue A / break A mean this loop
+    labels: List[str] = field(default_factory=list)
+    # Operand-stack slots the construct keeps while its body runs (for-in /
+    # for-of iterator, switch discriminant): an exit that crosses it pops them
+    stack_slots: int = 0
 
 
 @dataclass
 class TryContext:
-    """Context for try-finally blocks (for break/continue/return)."""
+    """Context for try statements (for break/continue/return).
+
+    Lives on the same stack as the LoopContexts so that an abrupt exit knows,
+    in nesting order, what it crosses.
+    """
 
     finalizer: Any = None  # The finally block AST node
+    handler_active: bool = False  # inside a region guarded by TRY_START
 
 
 class Compiler:
@@ -105,6 +115,7 @@ class Compiler:
             []
         )  # Track try-finally for break/continue/return
         self.functions: List[CompiledFunction] = []
+        self._pending_labels: List[str] = []  # labels of the next loop statement
         self._in_function: bool = False  # Track if we're compiling inside a function
         self._outer_locals: List[List[str]] = []  # Stack of outer scope locals
         self._free_vars: List[str] = []  # Free variables captured from outer scopes
@@ -206,12 +217,43 @@ class Compiler:
         self.bytecode[pos + 1] = target & 0xFF  # Low byte
         self.bytecode[pos + 2] = (target >> 8) & 0xFF  # High byte
 
-    def _emit_pending_finally_blocks(self) -> None:
-        """Emit all pending finally blocks (for break/continue/return)."""
-        # Emit finally blocks in reverse order (innermost first)
-        for try_ctx in reversed(self.try_stack):
-            if try_ctx.finalizer:
-                self._compile_statement(try_ctx.finalizer)
+    def _emit_exit_cleanup(self, target: Optional[LoopContext]) -> None:
+        """Emit what an abrupt exit owes to every construct it crosses.
+
+        Walks the scope stack from the innermost construct out to `target`
+        (the loop/switch/label a break or continue goes to; None for return):
+        a crossed try region gets its TRY_END and its finally block inlined, a
+        crossed for-in/for-of/switch gets its operand-stack slot popped (not
+        for return: the VM drops the whole frame).
+        """
+        i = len(self.loop_stack)
+        while i > 0:
+            i -= 1
+            scope = self.loop_stack[i]
+            if scope is target:
+                break
+            if isinstance(scope, TryContext):
+                if scope.handler_active:
+                    self._emit(OpCode.TRY_END)
+                if scope.finalizer is not None:
+                    # The finally block runs outside its own try statement
+                    inner = self.loop_stack[i:]
+                    del self.loop_stack[i:]
+                    self._compile_statement(scope.finalizer)
+                    self.loop_stack.extend(inner)
+            elif target is not None:
+                for _ in range(scope.stack_slots):
+                    self._emit(OpCode.POP)
+
+    @staticmethod
+    def _label_on_loop(ctx: LoopContext) -> bool:
+        """True if the labelled statement's body is a loop (which owns the label)."""
+        return bool(getattr(ctx, "labels_loop", False))
+
+    def _take_labels(self) -> List[str]:
+        """Labels written directly in front of the loop being compiled."""
+        labels, self._pending_labels = self._pending_labels, []
+        return labels
 
     def _add_constant(self, value: Any) -> int:
         """Add a constant and return its index."""
@@ -457,7 +499,7 @@ class Compiler:
                 self._patch_jump(jump_false)
 
         elif isinstance(node, WhileStatement):
-            loop_ctx = LoopContext()
+            loop_ctx = LoopContext(labels=self._take_labels())
             self.loop_stack.append(loop_ctx)
 
             loop_start = len(self.bytecode)
@@ -480,7 +522,7 @@ class Compiler:
             self.loop_stack.pop()
 
         elif isinstance(node, DoWhileStatement):
-            loop_ctx = LoopContext()
+            loop_ctx = LoopContext(labels=self._take_labels())
             self.loop_stack.append(loop_ctx)
 
             loop_start = len(self.bytecode)
@@ -501,7 +543,7 @@ class Compiler:
             self.loop_stack.pop()
 
         elif isinstance(node, ForStatement):
-            loop_ctx = LoopContext()
+            loop_ctx = LoopContext(labels=self._take_labels())
             self.loop_stack.append(loop_ctx)
 
             # Init
@@ -543,7 +585,7 @@ class Compiler:
             self.loop_stack.pop()
 
         elif isinstance(node, ForInStatement):
-            loop_ctx = LoopContext()
+            loop_ctx = LoopContext(labels=self._take_labels(), stack_slots=1)
             self.loop_stack.append(loop_ctx)
 
             # Compile object expression
@@ -601,18 +643,19 @@ class Compiler:
 
             self._emit(OpCode.JUMP, loop_start)
             self._patch_jump(jump_done)
-            self._emit(OpCode.POP)  # Pop iterator
-
-            # Patch break and continue jumps
+            # Patch break jumps: like normal exit they still hold the iterator
             for pos in loop_ctx.break_jumps:
                 self._patch_jump(pos)
+            self._emit(OpCode.POP)  # Pop iterator
+
+            # Patch continue jumps
             for pos in loop_ctx.continue_jumps:
                 self._patch_jump(pos, loop_start)
 
             self.loop_stack.pop()
 
         elif isinstance(node, ForOfStatement):
-            loop_ctx = LoopContext()
+            loop_ctx = LoopContext(labels=self._take_labels(), stack_slots=1)
             self.loop_stack.append(loop_ctx)
 
             # Compile iterable expression
@@ -653,27 +696,27 @@ class Compiler:
 
             self._emit(OpCode.JUMP, loop_start)
             self._patch_jump(jump_done)
-            self._emit(OpCode.POP)  # Pop iterator
-
-            # Patch break and continue jumps
+            # Patch break jumps: like normal exit they still hold the iterator
             for pos in loop_ctx.break_jumps:
                 self._patch_jump(pos)
+            self._emit(OpCode.POP)  # Pop iterator
+
+            # Patch continue jumps
             for pos in loop_ctx.continue_jumps:
                 self._patch_jump(pos, loop_start)
 
             self.loop_stack.pop()
 
         elif isinstance(node, BreakStatement):
-            if not self.loop_stack:
-                raise SyntaxError("'break' outside of loop")
-
-            # Find the right loop context (labeled or innermost loop/switch)
+            # Find the right context (labeled, or innermost loop/switch)
             target_label = node.label.name if node.label else None
             ctx = None
             for loop_ctx in reversed(self.loop_stack):
+                if isinstance(loop_ctx, TryContext):
+                    continue
                 if target_label is not None:
                     # Labeled break - find the matching label
-                    if loop_ctx.label == target_label:
+                    if loop_ctx.label == target_label or target_label in loop_ctx.labels:
                         ctx = loop_ctx
                         break
                 else:
@@ -686,48 +729,57 @@ class Compiler:
 
             if ctx is None:
                 if target_label:
-                    raise SyntaxError(f"label '{target_label}' not found")
+                    raise JSSyntaxError(f"label '{target_label}' not found")
                 else:
-                    raise SyntaxError("'break' outside of loop")
+                    raise JSSyntaxError("'break' outside of loop")
 
-            # Emit pending finally blocks before the break
-            self._emit_pending_finally_blocks()
+            # TRY_END / finally blocks / operand slots of what the break crosses
+            self._emit_exit_cleanup(ctx)
 
             pos = self._emit_jump(OpCode.JUMP)
             ctx.break_jumps.append(pos)
 
         elif isinstance(node, ContinueStatement):
-            if not self.loop_stack:
-                raise SyntaxError("'continue' outside of loop")
-
             # Find the right loop context (labeled or innermost loop, not switch)
             target_label = node.label.name if node.label else None
             ctx = None
             for loop_ctx in reversed(self.loop_stack):
-                # Skip non-loop contexts (like switch) unless specifically labeled
-                if not loop_ctx.is_loop and target_label is None:
+                if isinstance(loop_ctx, TryContext) or not loop_ctx.is_loop:
+                    # try regions, switch and labelled non-loops are not continue targets
+                    if (
+                        target_label is not None
+                        and isinstance(loop_ctx, LoopContext)
+                        and loop_ctx.label == target_label
+                        and not self._label_on_loop(loop_ctx)
+                    ):
+                        raise JSSyntaxError(
+                            f"label '{target_label}' does not denote a loop"
+                        )
                     continue
-                if target_label is None or loop_ctx.label == target_label:
+                if target_label is None or target_label in loop_ctx.labels:
                     ctx = loop_ctx
                     break
 
             if ctx is None:
-                raise SyntaxError(f"label '{target_label}' not found")
+                if target_label:
+                    raise JSSyntaxError(f"label '{target_label}' not found")
+                else:
+                    raise JSSyntaxError("'continue' outside of loop")
 
-            # Emit pending finally blocks before the continue
-            self._emit_pending_finally_blocks()
+            self._emit_exit_cleanup(ctx)
 
             pos = self._emit_jump(OpCode.JUMP)
             ctx.continue_jumps.append(pos)
 
         elif isinstance(node, ReturnStatement):
-            # Emit pending finally blocks before the return
-            self._emit_pending_finally_blocks()
-
+            # The value is computed first; then the finally blocks of every
+            # enclosing try run (the value waits on the operand stack)
             if node.argument:
                 self._compile_expression(node.argument)
+                self._emit_exit_cleanup(None)
                 self._emit(OpCode.RETURN)
             else:
+                self._emit_exit_cleanup(None)
                 self._emit(OpCode.RETURN_UNDEFINED)
 
         elif isinstance(node, ThrowStatement):
@@ -736,10 +788,10 @@ class Compiler:
             self._emit(OpCode.THROW)
 
         elif isinstance(node, TryStatement):
-            # Push TryContext if there's a finally block so break/continue/return
-            # can inline the finally code
-            if node.finalizer:
-                self.try_stack.append(TryContext(finalizer=node.finalizer))
+            # The TryContext tells break/continue/return inside the statement
+            # what they cross: a guarded region (TRY_END) and/or a finally block
+            try_ctx = TryContext(finalizer=node.finalizer, handler_active=True)
+            self.loop_stack.append(try_ctx)
 
             # Try block
             try_start = self._emit_jump(OpCode.TRY_START)
@@ -750,7 +802,8 @@ class Compiler:
             # Jump past exception handler to normal finally
             jump_to_finally = self._emit_jump(OpCode.JUMP)
 
-            # Exception handler
+            # Exception handler (the VM has already removed the handler entry)
+            try_ctx.handler_active = False
             self._patch_jump(try_start)
             if node.handler:
                 # Has catch block
@@ -761,17 +814,34 @@ class Compiler:
                 slot = self._get_local(name)
                 self._emit(OpCode.STORE_LOCAL, slot)
                 self._emit(OpCode.POP)
-                self._compile_statement(node.handler.body)
+                if node.finalizer:
+                    # An exception thrown by the catch block still has to run
+                    # the finally block: guard the catch block as well
+                    catch_guard = self._emit_jump(OpCode.TRY_START)
+                    try_ctx.handler_active = True
+                    self._compile_statement(node.handler.body)
+                    self._emit(OpCode.TRY_END)
+                    try_ctx.handler_active = False
+                    catch_done = self._emit_jump(OpCode.JUMP)
+                    self._patch_jump(catch_guard)
+                    self.loop_stack.pop()
+                    self._compile_statement(node.finalizer)
+                    self._emit(OpCode.THROW)  # Rethrow the catch block's exception
+                    self.loop_stack.append(try_ctx)
+                    self._patch_jump(catch_done)
+                else:
+                    self._compile_statement(node.handler.body)
                 # Fall through to finally
             elif node.finalizer:
                 # No catch, only finally - exception is on stack
                 # Run finally then rethrow
+                self.loop_stack.pop()
                 self._compile_statement(node.finalizer)
+                self.loop_stack.append(try_ctx)
                 self._emit(OpCode.THROW)  # Rethrow the exception
 
             # Pop TryContext before compiling normal finally
-            if node.finalizer:
-                self.try_stack.pop()
+            self.loop_stack.pop()
 
             # Normal finally block (after try completes normally or after catch)
             self._patch_jump(jump_to_finally)
@@ -800,7 +870,8 @@ class Compiler:
 
             # Case bodies
             case_positions = []
-            loop_ctx = LoopContext(is_loop=False)  # For break statements only
+            # For break statements only; holds the discriminant on the stack
+            loop_ctx = LoopContext(is_loop=False, stack_slots=1)
             self.loop_stack.append(loop_ctx)
 
             for i, case in enumerate(node.cases):
@@ -809,6 +880,9 @@ class Compiler:
                     self._compile_statement(stmt)
 
             self._patch_jump(jump_end)
+            # Patch break jumps: they still hold the discriminant
+            for pos in loop_ctx.break_jumps:
+                self._patch_jump(pos)
             self._emit(OpCode.POP)  # Pop discriminant
 
             # Patch jumps to case bodies
@@ -817,10 +891,6 @@ class Compiler:
             if default_jump:
                 pos, idx = default_jump
                 self._patch_jump(pos, case_positions[idx])
-
-            # Patch break jumps
-            for pos in loop_ctx.break_jumps:
-                self._patch_jump(pos)
 
             self.loop_stack.pop()
 
@@ -858,8 +928,25 @@ class Compiler:
             loop_ctx = LoopContext(label=node.label.name, is_loop=False)
             self.loop_stack.append(loop_ctx)
 
-            # Compile the labeled body
-            self._compile_statement(node.body)
+            # Compile the labeled body; a loop (possibly behind more labels)
+            # takes the label so that `continue label` finds it
+            body = node.body
+            loop_ctx.labels_loop = isinstance(
+                body,
+                (
+                    WhileStatement,
+                    DoWhileStatement,
+                    ForStatement,
+                    ForInStatement,
+                    ForOfStatement,
+                    LabeledStatement,
+                ),
+            )
+            if loop_ctx.labels_loop:
+                self._pending_labels.append(node.label.name)
+            else:
+                self._pending_labels = []
+            self._compile_statement(body)
 
             # Patch break jumps that target this label
             for pos in loop_ctx.break_jumps:
